@@ -87,6 +87,29 @@ CHECKS = {
    note="The C++ reader is built by tools/build_cpp.sh from the working tree (content-hashed under /verif/.build); synthetic INDENT/DEDENT/NEWLINE/EOF token text is ignored; error messages are not compared."),
 }
 NA = {}
+# additions made while strengthening the checks against the seeded changes (DESIGN.md 9.6)
+EXTRA = {
+ "C02": " Families with the bound's symbol recurring after the repetition are included.",
+ "C03": " Iteration counts 0..3 and records that skip the repetition are generated; at run level every tree the evaluator yields as a solution must reach the caller (small node budgets).",
+ "C04": " Inputs are also handed over as DerivationTrees (one leaf / one leaf per bit) and must be answered like the plain value.",
+ "C05": " Words up to 8 characters; a directed family (one repeated nonterminal entered at several offsets through prefix chains); one object parses the text form before the bytes form; generated trees are handed to parse() as trees.",
+ "C06": " Two directed families with a fixed bound: x{n,} over an empty-deriving operand and a computed repetition under left recursion; requests whose derived bound exceeds 80 000 states are skipped and counted.",
+ "C07": " A directed family quantifies over a symbol with several instances and reaches the bound symbol only through a path.",
+ "C08": " Concrete syntax beyond ast.unparse: f-strings with every prefix and escape sequences; top-level comparison constraints in ten shapes, whose verdicts on all nine words of a fixed grammar are compared with CPython's evaluation of the same text.",
+ "C11": " The direct history includes in-place edits that keep the node count; an exception on the long-lived side is an answer and must be matched by the fresh side.",
+ "C12": " Edits of returned trees include terminal leaves and read-only marks; every fourth machine works on a computed-repetition spec with hook-in parent requests.",
+ "C13": " Regex alphabets are read off the pattern; non-ASCII regexes are generated.",
+ "C14": " A lexer-state family concatenates f-strings (all prefixes, escapes, unmatched brackets), multi-line brackets and blocks in any order.",
+ "C15": " Literals with the text of one of the spec's regexes; directed slice selectors with zero/omitted bounds.",
+ "C16": " Families with two-argument generators, partial generators and constraints on sub-symbols of a generated field; every dependent field is compared with a reference function of the recorded arguments.",
+ "C17": " Ambiguous grammars (up to six derivations per word): the order of the forest is part of the result.",
+ "C18": " Orders: A then B, B constructed before A's activity (strict comparison also beyond 20 iterations), A's generator suspended while B runs; a name-space channel (A's python code defines names B uses).",
+ "C19": " Open-ended repetitions {n,} and the same sender addressing two recipients with one message type are generated; completeness of the empty history is judged.",
+ "C20": " Peers may pipeline (several remote messages on the wire, fragments of two parties interleaved); directed protocol shapes; message types of which one is a prefix of another; valid remote data must not be rejected (time-out, unexpected party, unparsable) in a fault-free run.",
+}
+for k, v in EXTRA.items():
+    CHECKS[k]["text"] += v
+
 checks = []
 for p in props:
     pid = p["id"]
